@@ -578,6 +578,10 @@ def get_json_element(json_doc: dict, element_name: str, default_value: Union[Non
     return json_doc[element_name] if element_name in json_doc else default_value
 
 
+def json_to_coords(json_doc: dict) -> Union[pdm.Coords, None]:
+    return pdm.Coords(json_doc['coords']) if 'coords' in json_doc else None
+
+
 def json_to_region_metadata(json_doc: dict):
     reading_order = get_json_element(json_doc, 'reading_order', default_value={})
     reading_order_attributes = get_json_element(json_doc, 'reading_order_attributes', default_value={})
@@ -597,13 +601,13 @@ def json_to_pagexml_line(json_doc: dict) -> pdm.PageXMLTextLine:
     reading_order, reading_order_attributes, orientation = json_to_region_metadata(json_doc)
     try:
         line = pdm.PageXMLTextLine(doc_id=json_doc['id'], doc_type=json_doc['type'], metadata=json_doc['metadata'],
-                                   coords=pdm.Coords(json_doc['coords']), baseline=pdm.Baseline(json_doc['baseline']),
+                                   coords=json_to_coords(json_doc), baseline=pdm.Baseline(json_doc['baseline']) if 'baseline' in json_doc else None,
                                    text=json_doc['text'], conf=json_doc['conf'] if 'conf' in json_doc else None,
                                    words=words, reading_order=reading_order,
                                    reading_order_attributes=reading_order_attributes)
         return line
     except TypeError:
-        print(json_doc['baseline'])
+        print(get_json_element(json_doc, 'baseline'))
         raise
 
 
@@ -614,7 +618,7 @@ def json_to_pagexml_text_region(json_doc: dict) -> pdm.PageXMLTextRegion:
     reading_order, reading_order_attributes, orientation = json_to_region_metadata(json_doc)
 
     text_region = pdm.PageXMLTextRegion(doc_id=json_doc['id'], doc_type=json_doc['type'], metadata=json_doc['metadata'],
-                                        coords=pdm.Coords(json_doc['coords']), text_regions=text_regions, lines=lines,
+                                        coords=json_to_coords(json_doc), text_regions=text_regions, lines=lines,
                                         orientation=orientation, reading_order=reading_order,
                                         reading_order_attributes=reading_order_attributes)
     pdm.set_parentage(text_region)
@@ -628,7 +632,7 @@ def json_to_pagexml_table_cell(json_doc: dict) -> pdm.PageXMLTableCell:
     cornerpoints = get_json_element(json_doc, 'cornerpoints')
 
     table_cell = pdm.PageXMLTableCell(doc_id=json_doc['id'], doc_type=json_doc['type'],
-                                      metadata=json_doc['metadata'], coords=pdm.Coords(json_doc['coords']),
+                                      metadata=json_doc['metadata'], coords=json_to_coords(json_doc),
                                       lines=lines, orientation=orientation, cornerpoints=cornerpoints,
                                       col=json_doc['col'], cell_span=json_doc['cell_span'],
                                       row_span=json_doc['row_span'])
@@ -642,7 +646,7 @@ def json_to_pagexml_table_row(json_doc: dict) -> pdm.PageXMLTableRow:
     orientation = get_json_element(json_doc, 'orientation')
 
     table_row = pdm.PageXMLTableRow(doc_id=json_doc['id'], doc_type=json_doc['type'],
-                                    metadata=json_doc['metadata'], coords=pdm.Coords(json_doc['coords']),
+                                    metadata=json_doc['metadata'], coords=json_to_coords(json_doc),
                                     cells=table_cells, orientation=orientation)
     pdm.set_parentage(table_row)
     return table_row
@@ -654,7 +658,7 @@ def json_to_pagexml_table_region(json_doc: dict) -> pdm.PageXMLTableRegion:
     orientation = get_json_element(json_doc, 'orientation')
 
     table_region = pdm.PageXMLTableRegion(doc_id=json_doc['id'], doc_type=json_doc['type'],
-                                          metadata=json_doc['metadata'], coords=pdm.Coords(json_doc['coords']),
+                                          metadata=json_doc['metadata'], coords=json_to_coords(json_doc),
                                           rows=table_rows, orientation=orientation)
     pdm.set_parentage(table_region)
     return table_region
@@ -674,7 +678,7 @@ def json_to_pagexml_column(json_doc: dict) -> pdm.PageXMLColumn:
     reading_order, reading_order_attributes, orientation = json_to_region_metadata(json_doc)
 
     column = pdm.PageXMLColumn(doc_id=json_doc['id'], doc_type=json_doc['type'], metadata=json_doc['metadata'],
-                               coords=pdm.Coords(json_doc['coords']), orientation=orientation,
+                               coords=json_to_coords(json_doc), orientation=orientation,
                                reading_order=reading_order, reading_order_attributes=reading_order_attributes,
                                text_regions=text_regions, table_regions=table_regions,
                                lines=lines)
